@@ -16,10 +16,10 @@ Three sub-models, each with an explicit `panic` outcome for every assert / expec
 * (c) git request header: `Model/Pktline`: `git_request_no_panic`;
 * (d) control frames → stream table of the wire protocol: `Model/Streams`: `control_frames_no_panic`.
 
-Two statements are FALSE of `/repo` main as it stands and are proved for the code with the proposed repairs
-(`fixes-pending/C13-*.patch`), next to a counterexample for the current code:
-`history_no_panic` / `restart_tiny_timestamp_counterexample` (b) and
-`control_frames_no_panic` / `control_frames_counterexample` (d).
+The repairs on `/repo` main are what makes the statements provable; each has a `…_prefix_counterexample`
+showing the panic of the code before it (regression witnesses in the corpus):
+e41c53f, 7f81fc9 (first round), 192a092 (`history_no_panic` / `restart_tiny_timestamp_prefix_counterexample`, b)
+and 614904d (`control_frames_no_panic` / `control_frames_prefix_counterexample`, d).
 
 The repairs already on `/repo` main are what makes (b) and (c) provable: the `…_prefix_counterexample`
 theorems show the panics of the code before them.
@@ -113,29 +113,28 @@ theorem handle_message_outcome (env : Env) (σ : State) (h : Inv σ) (remote : N
   | disconnect e => exact .inr ⟨e, rfl⟩
   | panic s => exact absurd ho (this s)
 
-/-- **Any history** — FULL statement, proved for the code with the repaired `Service::initial`
-(`Code.fixed`): messages from any peers in any order, interleaved with connections, disconnections and
+/-- **Any history** — FULL statement, for `/repo` main (`Code.current`, `Service::initial` saturates since 192a092): messages from any peers in any order, interleaved with connections, disconnections and
 restarts of the node, the oracle answering differently at every step: no step panics. -/
 theorem history_no_panic (envs : Nat → Env) (σ : State) (h : Inv σ) (ops : List Op) :
-    ∀ o, o ∈ run Code.fixed envs σ ops 0 → ∀ site, o ≠ .panic site :=
+    ∀ o, o ∈ run Code.current envs σ ops 0 → ∀ site, o ≠ .panic site :=
   run_ok envs h ops 0
 
-/-- One step of the CURRENT code: the only assertion site that can be reached is the backlog subtraction
+/-- One step of the code BEFORE 192a092: the only assertion site that can be reached is the backlog subtraction
 of `Service::initial`, on a connection event, when the newest stored announcement is younger than 3 minutes
 after the epoch; the invariant is preserved in any case. -/
-theorem step_current (env : Env) (σ : State) (h : Inv σ) (op : Op) :
-    (∀ site, (step Code.current env σ op).1 = .panic site →
+theorem step_before192a092 (env : Env) (σ : State) (h : Inv σ) (op : Op) :
+    (∀ site, (step Code.before192a092 env σ op).1 = .panic site →
       site = .subscribeBacklog ∧ (∃ r ho ro p, op = .connectIn r ho ro p) ∧
       ∃ last, σ.lastOnline = some last ∧ last < SUBSCRIBE_BACKLOG_DELTA) ∧
-    Inv (step Code.current env σ op).2 := by
+    Inv (step Code.before192a092 env σ op).2 := by
   cases op with
   | recv r m =>
-    obtain ⟨hn, hi⟩ := handleMessage_ok Code.current Code.current_msgLike env h r m
+    obtain ⟨hn, hi⟩ := handleMessage_ok Code.before192a092 Code.before192a092_msgLike env h r m
     exact ⟨fun site hs => absurd hs (hn site), hi⟩
   | disconnect r => exact ⟨fun site hs => by simp [step] at hs, disconnected_ok h r⟩
   | restart cfg => exact ⟨fun site hs => by simp [step] at hs, restarted_ok σ cfg⟩
   | connectIn r ho ro p =>
-    simp only [step, connectedInbound, initialSince, Code.current, Bool.false_eq_true, if_false]
+    simp only [step, connectedInbound, initialSince, Code.before192a092, Bool.false_eq_true, if_false]
     cases hl : σ.lastOnline with
     | none => exact ⟨fun site hs => by simp at hs, connectedSessions_ok h r ho ro p⟩
     | some last =>
@@ -148,14 +147,14 @@ theorem step_current (env : Env) (σ : State) (h : Inv σ) (op : Op) :
       · simp only [hlt, if_false]
         exact ⟨fun site hs => by simp at hs, connectedSessions_ok h r ho ro p⟩
 
-/-- `history_no_panic_partial` (current code): in any history, the only panic is that one. -/
+/-- `history_no_panic_partial` (code before 192a092): in any history, the only panic is that one. -/
 theorem history_no_panic_partial (envs : Nat → Env) (ops : List Op) : ∀ (σ : State) (i : Nat), Inv σ →
-    ∀ o, o ∈ run Code.current envs σ ops i → ∀ site, o = .panic site → site = .subscribeBacklog := by
+    ∀ o, o ∈ run Code.before192a092 envs σ ops i → ∀ site, o = .panic site → site = .subscribeBacklog := by
   induction ops with
   | nil => intro σ i _ o ho; simp [run] at ho
   | cons op ops ih =>
     intro σ i h o ho site hs
-    obtain ⟨hp, hinv⟩ := step_current (envs i) σ h op
+    obtain ⟨hp, hinv⟩ := step_before192a092 (envs i) σ h op
     unfold run at ho
     split at ho
     · rename_i s' σ' heq
@@ -177,7 +176,7 @@ rate limiter drops a message, produce the same outcome for every step. (This is 
 when it runs the model with one fixed oracle; each outcome is `msgClass`, a function of the guards only.) -/
 theorem outcome_env_irrelevant (envs1 envs2 : Nat → Env) (hl : ∀ i, (envs1 i).limited = (envs2 i).limited)
     (σ τ : State) (hσ : Inv σ) (hτ : Inv τ) (hs : SameShape σ τ) (ops : List Op) :
-    run Code.fixed envs1 σ ops 0 = run Code.fixed envs2 τ ops 0 :=
+    run Code.current envs1 σ ops 0 = run Code.current envs2 τ ops 0 :=
   run_env_irrelevant envs1 envs2 hl ops σ τ 0 hσ hτ hs
 
 /-- The guards, in the order of the code: which inputs disconnect the sender. -/
@@ -247,18 +246,18 @@ example : (handleMessage Code.current exEnv exState 0 zeroTsAnn).1 = .disconnect
 example : (handleMessage Code.current exEnv exState 0 (.subscribe 5 3)).1 = .ok := by decide
 
 /-- A validly signed node announcement with timestamp 1 ms (it passes every check and is stored), a restart
-of the node, and the next connection: the FULL statement `history_no_panic` is FALSE of the current code —
-`Service::initial` computes `last - SUBSCRIBE_BACKLOG_DELTA` without a guard (confirmed on the real code:
-oracle class `subscribe-backlog-underflow`, corpus `restart.case`). -/
-theorem restart_tiny_timestamp_counterexample :
-    run Code.current (fun _ => exEnv) exState
+of the node, and the next connection: before 192a092 the FULL statement `history_no_panic` was FALSE —
+`Service::initial` computed `last - SUBSCRIBE_BACKLOG_DELTA` on `LocalTime` without a guard (confirmed on the real
+code; regression witness: corpus `restart.case`, oracle class `subscribe-backlog-underflow`). -/
+theorem restart_tiny_timestamp_prefix_counterexample :
+    run Code.before192a092 (fun _ => exEnv) exState
       [.recv 0 (.announcement { announcer := 3, sigOk := true, timestamp := 1, kind := .node true }),
        .restart [], .connectIn 1 1 true false] 0
     = [.ok, .ok, .panic .subscribeBacklog] := by decide
 
-/-- The same history on the repaired code. -/
+/-- The same history on the current code. -/
 example :
-    run Code.fixed (fun _ => exEnv) exState
+    run Code.current (fun _ => exEnv) exState
       [.recv 0 (.announcement { announcer := 3, sigOk := true, timestamp := 1, kind := .node true }),
        .restart [], .connectIn 1 1 true false] 0
     = [.ok, .ok, .ok] := by decide
@@ -312,31 +311,30 @@ end C
 section D
 open Streams
 
-/-- **Control frames** — FULL statement, proved for the code with the repaired `Open` handler
-(`Streams.Code.fixed`): on a connection of either direction, whatever control frames (`Open`, `Close`, `Eof`
+/-- **Control frames** — FULL statement, for `/repo` main (`Streams.Code.current`, `Open` handler of 614904d): on a connection of either direction, whatever control frames (`Open`, `Close`, `Eof`
 with ANY stream id: ours, the peer's, control / gossip / git kinds, twice, before `Open`, after `Close`) and
 git frames the peer sends, interleaved in any order with our own fetches and with worker results for any
 stream, neither `expect` of `Streams::open` fires (for fewer than 2^58 fetches per connection). -/
 theorem control_frames_no_panic (l : Link) (ops : List Op) (hn : ops.length < 2 ^ 58) :
-    ∀ r, r ∈ Streams.run Streams.Code.fixed (init l) ops → ∀ s, r ≠ .error s := by
+    ∀ r, r ∈ Streams.run Streams.Code.current (init l) ops → ∀ s, r ≠ .error s := by
   refine run_fixed ops (init l) (init_inv l) ?_
   have : l.bit ≤ 1 := by cases l <;> simp [Link.bit]
   simp only [gitId, init, ID_BOUND]
   omega
 
-/-- The statement is FALSE of the current code: the peer opens the stream id our side will allocate next
+/-- Before 614904d the statement was FALSE: the peer opens the stream id our side will allocate next
 (`12 = StreamId::git(Outbound).nth(1)`, resp. `13` on an inbound connection); our next fetch then hits
 `.expect("Streams::open: stream was already open")` in the reactor thread (confirmed on the real `Wire`:
-oracle class `stream-preopened-by-peer`, corpus `control.case`). -/
-theorem control_frames_counterexample :
-    Streams.run Streams.Code.current (init .outbound) [.recvOpen 12, .fetch]
+regression witness: corpus `control.case`, oracle class `stream-preopened-by-peer`). -/
+theorem control_frames_prefix_counterexample :
+    Streams.run Streams.Code.before614904d (init .outbound) [.recvOpen 12, .fetch]
       = [.ok [.task true 12], .error .streamAlreadyOpen] ∧
-    Streams.run Streams.Code.current (init .inbound) [.recvOpen 13, .fetch]
+    Streams.run Streams.Code.before614904d (init .inbound) [.recvOpen 13, .fetch]
       = [.ok [.task true 13], .error .streamAlreadyOpen] := ⟨rfl, rfl⟩
 
-/-- The same frames on the repaired code are ignored, and a legitimate `Open` (the peer's initiator bit, git
+/-- The same frames on the current code are ignored, and a legitimate `Open` (the peer's initiator bit, git
 kind) still spawns a responder task. -/
-example : Streams.run Streams.Code.fixed (init .outbound) [.recvOpen 12, .fetch, .recvOpen 13, .workerResult 12]
+example : Streams.run Streams.Code.current (init .outbound) [.recvOpen 12, .fetch, .recvOpen 13, .workerResult 12]
     = [.ok [], .ok [.task false 12, .sendOpen 12], .ok [.task true 13], .ok [.sendClose 12]] := rfl
 end D
 
